@@ -12,6 +12,11 @@ class RewriteFunctionArgAccessVisitor(Visitor.DefaultVisitor):
 
         function.AcceptVisitor(self, mapping)
 
+        # The accesses have been replaced by new instruction objects, so the
+        # use lists computed during lowering point at instructions which are
+        # no longer part of the function
+        function.UpdateUses()
+
     def v_VariableAccessInstruction(self, vai, ctx):
         if vai.Scope == LinearIR.VariableAccessScope.FUNCTION_ARGUMENT:
             instruction = vai.WithVariable(ctx[vai.Variable])
